@@ -129,30 +129,52 @@ class C10(Check):
 
     hangs_seen = 0
     short_timeout = 6
+    hang_limit = 8
+    NOT_RUN = 'not-run (the watchdog has expired on %d cases of this run already)'
 
     def run_impl(self, cases, tag='impl'):
-        """The standard runner, in chunks.  Once two cases of this run have exceeded the watchdog (the
-        run has failed by then: a hang is a spec mismatch) the remaining chunks run under a shorter
-        watchdog, so that a tree with a lost wake-up is reported in minutes and not in hours."""
+        """The standard runner, in chunks (10, 20, 40 … 400 cases; back to 10 after a hang).  Once two
+        cases of this run have exceeded the watchdog (the run has failed by then: a hang is a spec
+        mismatch) the remaining chunks run under a shorter watchdog, and after `hang_limit` hangs the
+        remaining cases are not run at all (their only observation says so, and judge() skips them):
+        a tree with a lost wake-up is reported in minutes and not in hours."""
         from vf import run_exe_on_cases
         res, crashes = [], {}
-        step = 200
-        for a in range(0, len(cases), step):
+        a, step = 0, 10
+        while a < len(cases):
+            if self.hangs_seen >= self.hang_limit:
+                res += [[self.NOT_RUN % self.hangs_seen] for _ in cases[a:]]
+                break
             to = self.per_case_timeout if self.hangs_seen < 2 else self.short_timeout
             r, c = run_exe_on_cases(self.exes['impl'], cases[a:a + step], os.path.join(BUILD, self.id, 'run'), tag,
                                     is_impl=True, per_case_timeout=to)
             res += r
+            hung = False
             for k, v in c.items():
                 crashes[a + k] = v
                 if v[0] == 'timeout':
                     self.hangs_seen += 1
+                    hung = True
+            a += step
+            step = 10 if hung else min(400, step * 2)
         return res, crashes
+
+    def property_fails(self, case):
+        # re-runs for the report and the shrinker: always executed, short watchdog once two cases hung
+        saved = self.hangs_seen
+        self.hangs_seen = min(saved, 2)
+        try:
+            return Check.property_fails(self, case)
+        finally:
+            self.hangs_seen = saved
 
     def judge(self, cases, impl_obs, spec_obs):
         """Spec comparison; a case that does not come to an end (the harness's watchdog prints the
         pool's state as a `deadlock …` line before the process is killed) gets a reason that says so."""
         fails = []
         for (i, k, reason) in Check.judge(self, cases, impl_obs, spec_obs):
+            if impl_obs[i] and impl_obs[i][0].startswith('not-run'):
+                continue
             dl = [l for l in impl_obs[i] if l.startswith('deadlock ')]
             if dl:
                 reason = ('spec: every start/join/get of the script returns (%d operations); implementation: '
